@@ -163,6 +163,6 @@ Theorem to_proto_position_every_offset t : bytes t <= u32_max ->
   (forall o, on_char_boundary t o \/
              (exists p c s k, t = p ++ c :: s /\ 0 < k < utf8_len c /\ o = bytes p + k) \/ bytes t < o).
 Proof.
-  intros Hb. split; [intros p c s k Ht Hk; now apply to_proto_position_inside_char|].
+  intros Hb. split; [intros p c s k Ht Hk; now apply (to_proto_position_inside_char t p c s k)|].
   split; [intros o Ho; now apply to_proto_position_past_end|apply offset_cases].
 Qed.
